@@ -20,6 +20,11 @@ def run(tier, seed):
         cases.append(Case('raw_%d' % n, 'crypto', 'zzC01_raw', [n]))
     for w in range(7):
         cases.append(Case('other_%d' % w, 'crypto', 'zzC01_other', [w]))
+    for extra in (-48, -1, 0, 1, 2, 48, 152):
+        cases.append(Case('appended_%d' % extra, 'crypto', 'zzC01_appended', [extra & ((1 << 64) - 1)]))
+    # signature parsing inside verification is the real E1_read_bytes: its canonical-decoding obligation
+    # (the interface the algebraic model assumes) is re-checked here on the LLVM IR of the real function
+    cases.append(Case('E1_read_bytes_canonical_48', 'crypto', 'zzC05_E1_canonical', [48], opts={'setup': 'symex.setup_c:with_c'}))
     return run_check('C01', cases, tier, seed, setup=SETUP, functions=FUNCS, timeout_ms=240000,
         bounds={'keys': 'private key = one symbolic generator in [1, r-1]', 'messages': 'lengths %s, contents symbolic (hashing is an uninterpreted stream function)' % ('0,1,3,17,200' if thorough else '0,3'),
                 'candidates': 'a*H(m) + b*g1 (+ a point with a component outside G1) with a, b symbolic in Z_r (every point of E1 has this form); raw symbolic strings of lengths %s' % ('0..200' if thorough else '0,1,47,48,49,96,200'),
